@@ -236,6 +236,20 @@ class Evaluator:
             if out.kind == "raise":
                 raise ModelRaise(out)
             return out.value if out.kind == "return" else None
+        if isinstance(e, ast.Call) and isinstance(e.func, ast.Attribute) and e.func.attr in ("decode", "encode", "ljust", "rjust", "zfill", "rstrip", "lstrip", "strip", "hex") \
+                and len(e.args) <= 2 and all(k.arg in ("encoding", "errors") for k in e.keywords) and (e.args or e.keywords):
+            # text / bytes methods with arguments on modelled values
+            try:
+                v = self.ev(e.func.value)
+            except Unsupported:
+                v = None
+            if isinstance(v, (str, bytes, bytearray)) and hasattr(v, e.func.attr):
+                try:
+                    return getattr(bytes(v) if isinstance(v, bytearray) else v, e.func.attr)(*[self.ev(a) for a in e.args], **{k.arg: self.ev(k.value) for k in e.keywords})
+                except (UnicodeError, LookupError):
+                    raise ModelRaise(Outcome("raise", "UnicodeError", e))
+                except (TypeError, ValueError):
+                    raise Unsupported(e)
         if isinstance(e, ast.Call) and isinstance(e.func, ast.Attribute) and e.func.attr in ("split", "startswith", "endswith", "replace") and 1 <= len(e.args) <= 2 and not e.keywords:
             try:
                 v = self.ev(e.func.value)
@@ -404,6 +418,16 @@ class Evaluator:
                 finally:
                     self.env.pop("__recv__", None)
             raise Unsupported(e)
+        if isinstance(e, ast.Call) and isinstance(e.func, ast.Name) and e.func.id in ("bytes", "str") and e.func.id not in self.env and 1 <= len(e.args) <= 2 \
+                and (len(e.args) == 2 or [k.arg for k in e.keywords] == ["encoding"]) and all(k.arg in ("encoding", "errors") for k in e.keywords):
+            # bytes(text, encoding) / str(data, encoding)
+            v0 = self.ev(e.args[0])
+            enc = self.ev(e.args[1]) if len(e.args) == 2 else self.ev(e.keywords[0].value)
+            if isinstance(enc, str) and ((e.func.id == "bytes" and isinstance(v0, str)) or (e.func.id == "str" and isinstance(v0, (bytes, bytearray)))):
+                try:
+                    return v0.encode(enc) if e.func.id == "bytes" else bytes(v0).decode(enc)
+                except (UnicodeError, LookupError):
+                    raise ModelRaise(Outcome("raise", "UnicodeError", e))
         if isinstance(e, ast.Call) and isinstance(e.func, ast.Name) and e.func.id in ("len", "max", "min", "abs", "int", "bool", "sum", "any", "all", "str", "tuple", "list", "range", "bytes", "divmod", "bytearray", "reversed", "enumerate", "sorted", "zip") \
                 and all(k.arg in ("default", "start") for k in e.keywords):
             args = [self.ev(a) for a in e.args]
